@@ -1021,7 +1021,7 @@ class ChainWalk:
         self.checkpoint = joins[0]
         self.inner_tests = {t.id for t in g.nodes if t.kind == "test" and any(attr_of(x, "callbacks", self.cur) for x in ast.walk(t.ast))}
         # phase 1: from the entry to the first arrival at the checkpoint -> how is the current Deferred kept?
-        first = self._explore(g.entry, ((), frozenset(), False, False, False), stop_at_start=False)
+        first = self._explore(g.entry, ((), frozenset(), False, False, False, False), stop_at_start=False)
         modes = set()
         for kind, phys, env, at_exit, path in first:
             if at_exit:
@@ -1033,7 +1033,7 @@ class ChainWalk:
         self.mode = modes.pop()
         start_phys = ("…", "C") if self.mode == "peek" else ("…",)
         start_env = frozenset() if self.mode == "peek" else frozenset({(self.cur, "C")})
-        for kind, phys, env, at_exit, path in self._explore(self.checkpoint, (start_phys, start_env, False, False, False), stop_at_start=True):
+        for kind, phys, env, at_exit, path in self._explore(self.checkpoint, (start_phys, start_env, False, False, False, False), stop_at_start=True):
             cur = dict(env).get(self.cur)
             L = phys if self.mode == "peek" else (phys + ((cur,) if not at_exit else ()))
             self.transitions.append((kind, L, cur, at_exit, path))
@@ -1061,7 +1061,7 @@ class ChainWalk:
             return list(reversed(out))
         while dq:
             nid, st, fresh = dq.popleft()
-            phys, envf, hand, chained, inner = st
+            phys, envf, hand, chained, inner, exh = st
             env = dict(envf)
             node = g.node(nid)
             if node.kind == "stmt":
@@ -1082,9 +1082,17 @@ class ChainWalk:
                         if l not in labels:
                             continue
                         nphys = labels[l]
-                new = (nphys, frozenset(env.items()), hand, chained, inner)
+                nexh = exh
+                if hand and node.kind == "test" and nid in getattr(self, "inner_tests", ()) and l in ("T", "F"):
+                    subj = lambda e: attr_of(e, "callbacks", self.cur) or (isinstance(e, ast.Call) and dotted(e.func) == "len" and e.args
+                                                                             and attr_of(e.args[0], "callbacks", self.cur))
+                    if _zero_fact(node.ast, l == "T", subj) is True:
+                        nexh = True          # after the hand-over the current Deferred is known to have no callbacks left
+                new = (nphys, frozenset(env.items()), hand, chained, inner, nexh)
                 key = (b, new)
                 kind = "handover" if hand else ("chained" if chained else "exhausted")
+                if hand and nexh:
+                    kind = "handover-exhausted"
                 if b == g.exit:
                     if inner or not stop_at_start:
                         results.append((kind, nphys, new[1], True, path_to((nid, st)) + [b]))
@@ -1171,8 +1179,13 @@ class ChainWalk:
                 else:
                     env[t.id] = val
             elif isinstance(t, ast.Subscript) and is_name(t.value, X):
-                self.lifo_bad.append(nid)
-                phys = ("?",)
+                if const_int(t.slice) == -1 and v is not None:
+                    val, phys, fresh = self._val(v, phys, env, fresh, nid)
+                    phys, fresh = self._materialise(phys, fresh)
+                    phys = (phys[:-1] if phys else phys) + (val,)       # the top of the stack is replaced
+                else:
+                    self.lifo_bad.append(nid)
+                    phys = ("?",)
         if isinstance(st, ast.Delete) and any(isinstance(t, ast.Subscript) and is_name(t.value, X) for t in st.targets):
             self.lifo_bad.append(nid)
             phys = ("?",)
@@ -1231,7 +1244,11 @@ class ChainWalk:
         """[(kind, ok, observed description, witness path)] for every recorded transition"""
         out = []
         for kind, L, cur, at_exit, path in self.transitions:
-            if kind == "handover":
+            if kind == "handover-exhausted":
+                # the current Deferred has nothing left to run: keeping it below the waiting one or retiring it right away are equivalent
+                kind = "handover"
+                ok = (not at_exit) and L in (("…", "C", "W"), ("…", "W")) and (self.mode == "peek" or cur == "W")
+            elif kind == "handover":
                 ok = (not at_exit) and L == ("…", "C", "W") and (self.mode == "peek" or cur == "W")
             else:
                 below = len(L) == 2 and L[0] == "…" and isinstance(L[1], str) and L[1].startswith("B")
